@@ -650,3 +650,59 @@ def non_utf8_streams():
         chunked_head + b"3\r\nabc\r\n0\r\nX: t\x01" + bad + b"\r\n\r\n",
         chunked_head + b"3\r\nabc\r\n0\r\n" + b"X-T: " + b"t" * 9000 + bad + b"\r\n\r\n",
     ]
+
+
+
+def impl_run_consumed(segs, lim):
+    """Like impl_run, but every delivered payload is read CONCURRENTLY by a consumer task doing what
+    BaseRequest.read() does (await readany() until it returns b""), scheduled between the reads.
+    Returns [(method, target, body hex, finished)] for the delivered messages and the outcome."""
+    from aiohttp.http_parser import HttpRequestParser
+    from aiohttp.streams import EMPTY_PAYLOAD
+    ml, mf, mh, mq = lim
+    lp = loop()
+    proto = mock.Mock()
+    proto._reading_paused = False
+    p = HttpRequestParser(proto, lp, 2 ** 22, max_line_size=ml, max_field_size=mf, max_headers=mh,
+                          auto_decompress=False, max_msg_queue_size=mq)
+    results = []
+
+    async def consume(payload, slot):
+        body = bytearray()
+        try:
+            while True:
+                chunk = await payload.readany()
+                body.extend(chunk)
+                slot["data"] = bytes(body).hex()
+                if not chunk:
+                    break
+            slot["finished"] = True
+        except BaseException as e:  # noqa
+            slot["exc"] = type(e).__name__
+
+    async def drive():
+        tasks = []
+        outcome = "OK"
+        for i, seg in enumerate(segs):
+            try:
+                msgs, upgraded, tail = p.feed_data(bytes(seg))
+            except Exception as e:  # noqa
+                outcome = f"ERR:{type(e).__name__}@{i}"
+                break
+            for m, payload in msgs:
+                slot = {"method": m.method, "target": m.path.encode("utf-8", "surrogateescape").hex(),
+                        "data": "", "finished": payload is EMPTY_PAYLOAD, "exc": None}
+                results.append(slot)
+                if payload is not EMPTY_PAYLOAD:
+                    tasks.append(asyncio.ensure_future(consume(payload, slot)))
+            for _ in range(3):
+                await asyncio.sleep(0)
+        for _ in range(3):
+            await asyncio.sleep(0)
+        for t in tasks:
+            if not t.done():
+                t.cancel()
+        await asyncio.gather(*tasks, return_exceptions=True)
+        return outcome
+    outcome = lp.run_until_complete(drive())
+    return {"outcome": outcome, "msgs": results}
